@@ -246,12 +246,16 @@ pub fn start_watchdog() {
                                 .arg("replay")
                                 .arg(&path)
                                 .env("VERIF_DIR", &dir)
-                                .stdout(std::process::Stdio::null())
+                                .env("VERIF_INNER", "1")
                                 .stderr(std::process::Stdio::null())
-                                .status()
+                                .output()
                                 .ok()
                         });
-                        match confirmed.and_then(|st| st.code()) {
+                        if let Some(o) = &confirmed {
+                            let lines: Vec<String> = String::from_utf8_lossy(&o.stdout).lines().filter(|l| l.starts_with("  #")).map(|l| l.trim_start().to_string()).collect();
+                            attach_log(&path, &lines);
+                        }
+                        match confirmed.and_then(|o| o.status.code()) {
                             Some(1) => {}
                             other => {
                                 eprintln!(
@@ -299,6 +303,19 @@ pub fn progress_note(slot: usize, idx: Option<u64>) {
     if let Some(f) = file {
         let v = idx.map(|i| i + 1).unwrap_or(0);
         let _ = f.write_at(&v.to_le_bytes(), 8 * slot as u64);
+    }
+}
+
+/// Puts the event log captured from a replaying child process into a replay file.
+pub fn attach_log(path: &Path, lines: &[String]) {
+    if let Ok(text) = std::fs::read_to_string(path) {
+        if let Ok(mut doc) = serde_json::from_str::<Value>(&text) {
+            let n = lines.len();
+            let tail: Vec<&String> = lines.iter().skip(n.saturating_sub(400)).collect();
+            doc["log"] = json!(tail);
+            doc["log_note"] = json!(format!("the last {} of {} events recorded before the run was cut short", tail.len(), n));
+            let _ = std::fs::write(path, serde_json::to_string_pretty(&doc).unwrap());
+        }
     }
 }
 
@@ -758,15 +775,15 @@ pub fn replay(scenarios: &[Box<dyn Scenario>], path: &Path) -> i32 {
     } else {
         Tape::replay(tape)
     };
-    match run_guarded(s.as_ref(), kind, tier, tape, true) {
+    crate::common::ECHO_LOG.store(true, Ordering::Relaxed);
+    let res = run_guarded(s.as_ref(), kind, tier, tape, true);
+    crate::common::ECHO_LOG.store(false, Ordering::Relaxed);
+    match res {
         Err(msg) => {
             eprintln!("HARNESS ERROR: {}", msg);
             2
         }
         Ok((out, _)) => {
-            for l in &out.log {
-                println!("  {}", l);
-            }
             match out.violation {
                 Some(v) => {
                     let want = format!(
